@@ -185,6 +185,21 @@ pub fn float_inputs(seed: u64, count: usize, nmax: usize, dims: &[usize]) -> Vec
         for g in gens.iter_mut() {
             *g = g.max(anchor).min(anchor + width);
         }
+        // a valid input has pairwise distinct generators after dropping the unused coordinates and modulo the period:
+        // drop every generator that coincides with an earlier one in that sense (e.g. two 1D generators on the same wall)
+        let key = |g: &DVec3| -> [u64; 3] {
+            let mut k = [0u64; 3];
+            for a in 0..dim {
+                let mut x = g[a];
+                if per && x == anchor[a] + width[a] {
+                    x = anchor[a];
+                }
+                k[a] = (x + 0.0).to_bits();
+            }
+            k
+        };
+        let mut seen = std::collections::HashSet::new();
+        gens.retain(|g| seen.insert(key(g)));
         out.push(FInput { id: out.len(), kind: kind.to_string(), gens, anchor, width, dim, per });
     }
     out
